@@ -368,12 +368,12 @@ def gen_ico(sub=0):
     return Mesh(lon, lat, faces, "ico", closed=True)
 
 
-def gen_cap(n=6, south_face=True):
+def gen_cap(n=6, south_face=True, ring_lats=(78.0, 64.0)):
     """Polar cap: node exactly at the north pole, a fan of n triangles, a ring of n quads;
     optionally one n-gon enclosing the south pole (pole strictly inside the face)."""
     lon = [0.0]
     lat = [90.0]
-    for r, la in enumerate((78.0, 64.0)):
+    for r, la in enumerate(ring_lats):
         for i in range(n):
             lon.append(-180.0 + 360.0 * (i + 0.5 * r + 0.25) / n)
             lat.append(la)
